@@ -13,6 +13,7 @@ import Driver.OpsFPA
 import Driver.OpsMCTS
 import Driver.OpsPTN
 import Driver.OpsSolvers
+import Driver.OpsGlue
 namespace Driver
 
 def handlers : List Handler := [
@@ -31,6 +32,7 @@ def handlers : List Handler := [
   handlePTN,
   handleSearch,
   handleSolvers,
+  handleGlue,
 ]
 
 def step (st : St) (line : String) : St × String :=
